@@ -271,17 +271,23 @@ def sub_regorder(acc, shard, nshards, tier):
 def sub_irrelevant(acc, shard, nshards, tier):
     idx = 0
     H = lambda lo, hi: [Hierarchy.get(a) for n in range(lo, hi + 1) for a in posets(n)]  # noqa
+    S = ["x", "xy", "xy?", "x*k", "x*k?"]
     if tier == "quick":
-        static = [("1pos,n<=4,L<=2,prio", H(2, 4), ["x"], (0, 1), 1, 2), ("2pos,n<=3,L<=2", H(2, 3), ["xy"], (0,), 1, 2),
-                  ("shapes,n<=1,L<=2", H(1, 1), ["x", "xy", "xy?", "x*k", "x*k?"], (0,), 1, 2)]
+        static = [("1pos,n<=4,L<=2,prio", H(2, 4), ["x"], (0, 1), 1, 2, None), ("2pos,n<=3,L<=2", H(2, 3), ["xy"], (0,), 1, 2, None),
+                  ("shapes,n<=1,L<=2", H(1, 1), S, (0,), 1, 2, None),
+                  ("other-arity-added,n=4: 1pos L=2 + xy / x*k", H(4, 4), ["x"], (0,), 2, 2, ["xy", "x*k"]),
+                  ("other-arity-added,n=3: 2pos L=2 + x / xy*k", H(3, 3), ["xy"], (0,), 2, 2, ["x", "xy*k"])]
     else:
-        static = [("1pos,n<=5,L<=2,prio", H(2, 5), ["x"], (0, 1), 1, 2), ("1pos,n<=4,L=3,prio", H(2, 4), ["x"], (0, 1), 3, 3),
-                  ("2pos,n<=3,L<=2,prio", H(2, 3), ["xy"], (0, 1), 1, 2), ("2pos,n=4,L=2", H(4, 4), ["xy"], (0,), 2, 2),
-                  ("shapes,n<=2,L<=2", H(1, 2), ["x", "xy", "xy?", "x*k", "x*k?"], (0,), 1, 2)]
-    for name, hiers, shapes, prios, lo, hi in static:
+        static = [("1pos,n<=5,L<=2,prio", H(2, 5), ["x"], (0, 1), 1, 2, None), ("1pos,n<=4,L=3,prio", H(2, 4), ["x"], (0, 1), 3, 3, None),
+                  ("2pos,n<=3,L<=2,prio", H(2, 3), ["xy"], (0, 1), 1, 2, None), ("2pos,n=4,L=2", H(4, 4), ["xy"], (0,), 2, 2, None),
+                  ("shapes,n<=2,L<=2", H(1, 2), S, (0,), 1, 2, None),
+                  ("other-arity-added,n<=4: 1pos L<=3 + xy / x*k / xy? / x*k?", H(3, 4), ["x"], (0, 1), 2, 3, ["xy", "x*k", "xy?", "x*k?"]),
+                  ("other-arity-added,n=3: 2pos L=2 + x / xy*k / xyz", H(3, 3), ["xy"], (0,), 2, 2, ["x", "xy*k", "xyz"])]
+    for name, hiers, shapes, prios, lo, hi, add_shapes in static:
         for h in hiers:
             ds = spaces.descriptors(h.type_names, shapes, prios)
             calls = spaces.calls_for(h.type_names, shapes)
+            ds_add = ds if add_shapes is None else spaces.descriptors(h.type_names, add_shapes, (0,))
             sem = StaticSem(h.classes)
             for descs in spaces.multisets(ds, lo, hi, distinct=True):
                 idx += 1
@@ -292,7 +298,7 @@ def sub_irrelevant(acc, shard, nshards, tier):
                 base_out = []
                 for args_n, kw_n in calls:
                     base_out.append(norm(base.call(tuple(h.instances[a] for a in args_n), {k: h.instances[v] for k, v in kw_n.items()})))
-                for x in ds:
+                for x in ds_add:
                     if x in descs:
                         continue
                     mx = spaces.mspecs_of(descs + (x,))
